@@ -36,3 +36,129 @@ def run(rep, tier, scratch):
             rep.nontrivial.add('static-' + tc.case_id(case))
     rep.traces += n
     rep.notes['static_view_cases'] = n
+    rep.guard(co_declarers, rep, what='two glob declarers on one store')
+    rep.guard(generated_glob_declarer, rep, what='a generated process with a glob port')
+
+
+def co_declarers(rep):
+    """Two processes declare, through glob ports on one store, different
+    sub-variables of its children - next to each other or below a shared key.
+    Each sees, for every child (also one added at run time), exactly the
+    variables it declared."""
+    import copy
+    from vivarium.core.engine import Engine
+    from vivarium.core.process import Process
+
+    class Declarer(Process):
+        defaults = {'sub': {}, 'log': None, 'add': None, 'time_step': 1}
+
+        def ports_schema(self):
+            return {'agents': {'*': copy.deepcopy(self.parameters['sub'])}}
+
+        def next_update(self, timestep, states):
+            self.parameters['log'].append(copy.deepcopy(states['agents']))
+            if self.parameters['add'] and len(self.parameters['log']) == 1:
+                return {'agents': {'_add': [{'key': self.parameters['add'], 'state': {}}]}}
+            return {}
+
+    def leaf(d):
+        return {'_default': d}
+
+    def shape(sub):
+        return {k: (shape(v) if '_default' not in v else v['_default']) for k, v in sub.items()}
+    forms = {
+        'flat': ({'x': leaf(1)}, {'y': leaf(2)}),
+        'nested': ({'internal': {'x': leaf(1)}}, {'internal': {'y': leaf(2)}}),
+        'nested2': ({'i': {'j': {'x': leaf(1)}, 'k': leaf(3)}}, {'i': {'j': {'y': leaf(2)}}}),
+    }
+    for name, (sa, sb) in forms.items():
+        for order in ('ab', 'ba'):
+            rep.evaluations += 1
+            sig = {'kind': 'co-declarers', 'form': name, 'order': order}
+            la, lb = [], []
+            procs = {'a': Declarer({'sub': sa, 'log': la, 'add': '3'}),
+                     'b': Declarer({'sub': sb, 'log': lb})}
+            try:
+                eng = Engine(processes={k: procs[k] for k in order},
+                             topology={k: {'agents': ('agents',)} for k in order},
+                             initial_state={'agents': {'1': {}, '2': {}}},
+                             display_info=False, emitter='null')
+                eng.update(1)
+                eng.update(1)
+            except Exception as e:
+                rep.violation(sig, 'C07 two glob declarers on one store (%s, listed %s) raised %r'
+                              % (name, order, e), {})
+                continue
+            for who, log, sub in (('a', la, sa), ('b', lb, sb)):
+                want = [{k: shape(sub) for k in ('1', '2')}, {k: shape(sub) for k in ('1', '2', '3')}]
+                if log != want:
+                    rep.violation(dict(sig, who=who),
+                                  'C07 process %s declares %r for the children of a store that '
+                                  'another process declares %r for (listed %s): its views are '
+                                  '%r, expected %r' % (who, sub, sb if who == 'a' else sa, order,
+                                                       log, want), {})
+                    break
+            rep.nontrivial.add('co-declarers-%s-%s' % (name, order))
+
+
+
+def generated_glob_declarer(rep):
+    """A process generated at run time declares, through a glob port wired to
+    the store that holds its compartment and its siblings, a sub-variable of
+    every child: from its first invocation on it sees every child with that
+    variable (holding its default) - the children that were there before it as
+    well as its own compartment."""
+    import copy
+    from vivarium.core.engine import Engine
+    from vivarium.core.process import Process
+
+    class Census(Process):
+        defaults = {'log': None, 'time_step': 1}
+
+        def ports_schema(self):
+            return {'all': {'*': {'age': {'_default': 4}}}}
+
+        def next_update(self, timestep, states):
+            self.parameters['log'].append(copy.deepcopy(states['all']))
+            return {}
+
+    class Maker(Process):
+        defaults = {'log': None, 'via': 'generate', 'time_step': 1}
+
+        def ports_schema(self):
+            return {'agents': {'*': {'mass': {'_default': 1}}}}
+
+        def next_update(self, timestep, states):
+            if getattr(self, 'done', False):
+                return {}
+            self.done = True
+            entry = {'key': 'new', 'processes': {'census': Census({'log': self.parameters['log']})},
+                     'topology': {'census': {'all': ('..',)}}, 'initial_state': {}}
+            if self.parameters['via'] == 'divide':
+                return {'agents': {'_divide': {'mother': 'a0', 'daughters': [
+                    entry, {'key': 'other', 'processes': {}, 'topology': {},
+                            'initial_state': {}}]}}}
+            return {'agents': {'_generate': [entry]}}
+    for via in ('generate', 'divide'):
+        rep.evaluations += 1
+        sig = {'kind': 'generated-glob-declarer', 'via': via}
+        log = []
+        try:
+            eng = Engine(processes={'maker': Maker({'log': log, 'via': via})},
+                         topology={'maker': {'agents': ('agents',)}},
+                         initial_state={'agents': {'a0': {}, 'a1': {}}},
+                         display_info=False, emitter='null')
+            eng.update(1)
+            eng.update(1)
+            eng.update(1)
+        except Exception as e:
+            rep.violation(sig, 'C07 a process with a glob port generated at run time (%s) '
+                          'raised %r' % (via, e), {})
+            continue
+        kids = ['a0', 'a1', 'new'] if via == 'generate' else ['a1', 'new', 'other']
+        want = {k: {'age': 4} for k in kids}
+        if not log or any(v != want for v in log):
+            rep.violation(sig, 'C07 a process generated at run time (%s) with the glob port '
+                          '{*: {age: default 4}} on the store of its siblings sees %r, expected '
+                          '%r at every invocation' % (via, log[:2], want), {})
+        rep.nontrivial.add('generated-glob-' + via)
